@@ -432,8 +432,9 @@ public:
 
     bool operator==(const Raster& other) const
     {
-        // TODO: assumes same sizes
-        for (Index i = 0; i < cols_; i++) {
+        if (rows_ != other.rows_ || cols_ != other.cols_)
+            return false;
+        for (Index i = 0; i < rows_; i++) {
             for (Index j = 0; j < cols_; j++) {
                 if (this->data_[i * cols_ + j] != other.data_[i * cols_ + j])
                     return false;
@@ -444,8 +445,9 @@ public:
 
     bool operator!=(const Raster& other) const
     {
-        // TODO: assumes same sizes
-        for (Index i = 0; i < cols_; i++) {
+        if (rows_ != other.rows_ || cols_ != other.cols_)
+            return true;
+        for (Index i = 0; i < rows_; i++) {
             for (Index j = 0; j < cols_; j++) {
                 if (this->data_[i * cols_ + j] != other.data_[i * cols_ + j])
                     return true;
